@@ -59,7 +59,7 @@ def assigned_names(nodes):
 class ExecCore(object):
     """statement level; expression level and calls are mixed in by exec.py"""
 
-    FEAS_TIMEOUT_MS = 250
+    FEAS_TIMEOUT_MS = int(__import__('os').environ.get('PYVC_FEAS_MS', '250'))
 
     def __init__(self, engine, fi, contract):
         self.eng, self.fi, self.contract = engine, fi, contract
@@ -99,15 +99,23 @@ class ExecCore(object):
         self.n_returns = r
 
     # ------------------------------------------------------------------ feasibility
+    LAZY = __import__('os').environ.get('PYVC_FEAS', '') == 'lazy'
+
     def feasible(self, st):
+        if self.LAZY or getattr(self.contract, 'lazy_feasibility', False):
+            return True     # no pruning: infeasible paths only produce vacuously true obligations
         self.feas_checks += 1
         s = z3.Solver()
-        s.set('timeout', self.FEAS_TIMEOUT_MS)
+        s.set('timeout', getattr(self.contract, 'feas_ms', None) or self.FEAS_TIMEOUT_MS)
         s.add(*st.pc)
         return s.check() != z3.unsat
 
     def fork(self, st, cond, label=None):
         """-> (state where cond, state where not cond), None when infeasible"""
+        if not (z3.is_true(cond) or z3.is_false(cond)):
+            c2 = z3.simplify(cond)
+            if z3.is_true(c2) or z3.is_false(c2):
+                cond = c2
         if z3.is_true(cond):
             return st, None
         if z3.is_false(cond):
@@ -360,8 +368,8 @@ class ExecCore(object):
         for i, e in enumerate(elts):
             ety = ty.ts[i] if isinstance(ty, Ty.TTuple) else ty.t
             item = SV(seq[i], ety)
-            if v.has_py:
-                item = self.lift_py(v.py[i], ok) if False else item
+            if v.has_py and isinstance(v.py, (list, tuple)) and len(v.py) == n:
+                item = self.lift_py(v.py[i], ok)      # constant data keeps its concrete view
             nxt = []
             for c in cur:
                 c.assume(shape(c, item.term, ety))
@@ -399,7 +407,7 @@ class ExecCore(object):
 
     def iter_view(self, st, itv):
         """-> ('const', [SV...]) | ('seq', z3 Seq term, elem type, extra assumptions)"""
-        if itv.has_py and isinstance(itv.py, (list, tuple)) and not isinstance(itv.ty, Ty.TList):
+        if itv.has_py and isinstance(itv.py, (list, tuple)):
             return ('const', [self.lift_py(x, st) for x in itv.py])
         if itv.has_py and isinstance(itv.py, (list, tuple)) and itv.ty is not None and getattr(itv, 'py', None) is not None \
                 and self.is_module_const(itv):
@@ -808,7 +816,10 @@ class ExecCore(object):
                 saved = m.cur_exc
                 m.cur_exc = exc
                 if h.name:
-                    m.env[h.name] = exc.obj if exc.obj is not None else SV(fresh('exc', Val), Ty.ANY)
+                    eo = exc.obj if exc.obj is not None else SV(fresh('exc', Val), Ty.ANY)
+                    if isinstance(eo.ty, Ty.TAny):
+                        eo = SV(eo.term, Ty.TInst('builtins:BaseException'))
+                    m.env[h.name] = eo
                 for ho in self.exec_block(h.body, m):
                     ho.st.cur_exc = saved
                     if h.name:
